@@ -27,6 +27,7 @@ class RunRecord:
     stop_requested_wall: float | None = None
     stdout: str = ""
     exit_code: int | None = None
+    wall_limit_hit: bool = False  # the harness stopped the stream itself (max_wall_s)
 
     def of_type(self, name: str) -> list:
         return [e for e in self.events if e["type"] == name]
@@ -200,6 +201,7 @@ def run_engine(
     stop: dict | None = None,
     max_wall_s: float = 120.0,
     config=None,
+    on_wall_limit: str = "inconclusive",
 ) -> RunRecord:
     """``configure(schema) -> schema`` applies filters etc. ``on_event(event, stream, index)`` observes.
 
@@ -256,12 +258,18 @@ def run_engine(
                 stream.stop()
                 record.stop_requested_at = time.monotonic(); record.stop_requested_wall = time.time()
             if time.monotonic() - started > max_wall_s:
+                record.wall_limit_hit = True
                 stream.stop()
     except BaseException as exc:  # noqa: BLE001
         if isinstance(exc, (SystemExit,)):
             raise
         record.exception = f"{type(exc).__name__}: {exc}"[:500]
     record.requests = server.snapshot()
+    if record.wall_limit_hit and on_wall_limit == "inconclusive":
+        # a run the harness cut short says nothing about completeness; "record" hands it to callers that treat it as an interruption
+        from vfw import core
+
+        raise core.Inconclusive(f"engine run stopped by the harness after {max_wall_s:.0f}s")
     return record
 
 
